@@ -103,6 +103,7 @@ def run(chk):
     chk.assumptions = ["an invalid value may be rejected with a runtime error or stored reduced to the field width (both allowed by the property)",
                        "the read-back after re-parsing is skipped when the new value makes the layer unparseable (IHL / data offset below 5 or beyond the capture)"]
     chk.floor = 900
+    chk.rule += '; plus sequences that finally re-type an outer layer, rejected assignments checked for an unchanged packet through the end filter, the inner layer read for the first time after the assignment, IPv6 headers with a damaged version nibble'
     work = core.scratch_dir()
     try:
         jobs = []
